@@ -324,6 +324,8 @@ class Engine:
       v = v != 0
     elif z3.is_real(v):
       v = v != 0
+    elif z3.is_string(v):
+      v = z3.Length(v) != 0
     elif not z3.is_bool(v):
       raise Unsupported(f'truthiness of sort {v.sort()}')
     v = z3.simplify(v)
@@ -485,8 +487,14 @@ class Engine:
       return self.call_closure(f, args, kw)
     if isinstance(f, SymCallable):
       return f.fn(self, *args, **kw)
-    if isinstance(f, types.MethodType) and isinstance(f.__self__, (list, dict)) and not _any_sym(args):
-      return f(*args, **kw)
+    if isinstance(f, (types.MethodType, types.BuiltinMethodType)) and isinstance(getattr(f, '__self__', None), (list, dict)):
+      if not _any_sym(args):
+        return f(*args, **kw)
+      if f.__name__ in ('append', 'extend', 'insert') and isinstance(f.__self__, list):
+        # structural list operations do not inspect their members
+        return f(*[list(self.iter_concrete(a)) if f.__name__ == 'extend' else a for a in args])
+      if f.__name__ in ('items', 'keys', 'values'):
+        return f()
     key = _callable_key(f)
     if key in self.contracts:
       return self.contracts[key](self, *args, **kw)
@@ -627,9 +635,18 @@ class Engine:
     if isinstance(obj, dict) and not is_sym(idx):
       obj[idx] = v
       return
+    if isinstance(obj, dict) and is_sym(idx):
+      for k in list(obj):
+        if self.truth(self.compare(ast.Eq(), idx, k)):
+          obj[k] = v
+          return
+      obj[idx] = v
+      return
     h = self.libspec.get(('store', type(obj).__name__))
     if h:
       return h[1](self, obj, idx, v)
+    if is_sym(obj) and (z3.is_int(obj) or z3.is_real(obj) or z3.is_bool(obj)):
+      raise PathRaise('TypeError', getattr(node, 'lineno', None))      # item assignment on a number
     raise Unsupported(f'subscript store on {type(obj).__name__}')
 
   def st_If(self, s, env):
@@ -1248,7 +1265,10 @@ class Engine:
     def emit(en):
       k = self.eval(e.key, en)
       if is_sym(k):
-        raise Unsupported('symbolic key in dict comprehension')
+        for k0 in list(out):
+          if self.truth(self.compare(ast.Eq(), k, k0)):
+            k = k0
+            break
       out[k] = self.eval(e.value, en)
     self._comprehension(e, env, emit)
     return out
